@@ -276,18 +276,29 @@ impl Object {
     }
 
     /// Frees the memory address this pointer points to
-    /// Plus all addresses inside the array (if it is an array)
+    /// Plus all addresses inside the array (if it is an array), at any depth, each of them once
     pub fn free_recursive(self) {
-        if self.tag() == Type::Array {
-            // Safety: We've asserted the type
-            unsafe {
-                for o in self.as_vec_unchecked() {
-                    o.free();
-                }
+        // Find everything first and free it afterwards: the same object can be in more than one place
+        // (also inside of itself), and an array that was freed can not be looked into any more.
+        // A list of pending objects instead of recursion: arrays can be nested deeper than the native stack allows
+        let mut seen = HashSet::new();
+        let mut found = Vec::new();
+        let mut pending = vec![self];
+        while let Some(o) = pending.pop() {
+            if !o.is_heap_allocated() || !seen.insert(o.as_ptr()) {
+                continue;
             }
+
+            if o.tag() == Type::Array {
+                // Safety: We've asserted the type
+                pending.extend(unsafe { o.as_vec_unchecked() }.iter().copied());
+            }
+            found.push(o);
         }
 
-        self.free();
+        for o in found {
+            o.free();
+        }
     }
 }
 
